@@ -63,9 +63,25 @@ class State:
         self.moves = 0          # cursor offset from the entry position
         self.window = 0         # buffered bytes in front of the cursor
         self.refills = 0
+        self.ptrs = {}          # local pointer -> absolute byte index it points at (a copy of the cursor taken earlier)
+        self.fill_lo = 0        # absolute index of the first byte still in the buffer (the cursor at the last refill)
 
 
-def explore(fn, pname, ai, want, enums, refill="read_to_buffer", max_paths=4000):
+def _const_arrays(fn, extra=None):
+    """constant integer arrays the function can index: its own `static const T name[] = {..}` and those handed in"""
+    out = dict(extra or {})
+    for d in ir.walk(fn["body"]):
+        if d.get("k") == "Decl":
+            for v in d.get("vars", []):
+                il = unwrap_all_casts(v.get("init")) if v.get("init") is not None else None
+                if isinstance(il, dict) and il.get("k") == "InitList" and "const" in (v.get("t") or "") and "[" in (v.get("t") or ""):
+                    vals = [ir.const_value(c) for c in il.get("c", [])]
+                    if vals and all(isinstance(x, int) for x in vals):
+                        out[v.get("n")] = vals
+    return out
+
+
+def explore(fn, pname, ai, want, enums, refill="read_to_buffer", max_paths=4000, arrays=None):
     """[(kind, value, moves)] for every path of fn's body that returns; kind 'bytes' (value = map) or 'const'"""
     results = []
     work = [[]]
@@ -76,7 +92,7 @@ def explore(fn, pname, ai, want, enums, refill="read_to_buffer", max_paths=4000)
         if n > max_paths:
             raise Unknown("more than %d paths" % max_paths)
         ch = Chooser(prefix)
-        st = State({pname: ai})
+        st = State({pname: ai, "@arrays": _const_arrays(fn, arrays)})
         st.window = ch.choose(range(want, -1, -1))
         ev = _Eval(st, ch, enums, want, refill)
         try:
@@ -106,6 +122,8 @@ class _Eval:
             return ("p", 0)
         if p == MEND:
             return ("end", 0)
+        if p is not None and len(p) == 1 and ir.path_str(p) in self.st.ptrs:
+            return ("p", self.st.ptrs[ir.path_str(p)] - self.st.moves)     # relative to where the cursor stands now
         if u.get("k") == "Bin" and u.get("op") in ("+", "-"):
             a = self.ptr(u.get("lhs"))
             if a is not None and a[0] == "p" and self.ptr(u.get("rhs")) is None:
@@ -152,9 +170,10 @@ class _Eval:
 
     # ---- input bytes
     def byte_at(self, off):
-        if off < 0 or off >= self.st.window:
+        a = self.st.moves + off
+        if a < self.st.fill_lo or off >= self.st.window:
             raise OutOfWindow("reads the byte at cursor%+d with %d byte(s) buffered" % (off, self.st.window), self.ch.taken)
-        return {self.st.moves + off: 0}
+        return {a: 0}
 
     def mentions_input(self, e):
         for x in ir.walk(e):
@@ -311,6 +330,7 @@ class _Eval:
                     if self.st.refills > 9:
                         raise EndOfInput()
                     self.st.window = self.ch.choose(opts)
+                    self.st.fill_lo = self.st.moves          # what was buffered before is gone
                 return
             raise Unknown("call of %s" % nm)
         if k == "Cast" and (u.get("t") or "") == "void":
@@ -415,6 +435,11 @@ class _Eval:
                 self.st.env.pop(key, None)
                 if v.get("init") is None:
                     continue
+                if (v.get("t") or "").rstrip().endswith("*"):
+                    t_ = self.ptr(v["init"])
+                    if t_ is not None and t_[0] == "p":
+                        self.st.ptrs[key] = self.st.moves + t_[1]
+                        continue
                 if self.mentions_input(v["init"]):
                     self.st.sym[key] = self.symev(v["init"])
                 else:
